@@ -24,6 +24,7 @@ type c32Case struct {
 }
 
 const (
+	stalledPct   = 40 // share of the generated stress scenarios that carry the 'stalled-reader' kind
 	stallWindowC = 20 * time.Second
 	childLimit   = 150 * time.Second
 )
@@ -39,6 +40,9 @@ func genC32(pairs []pairT) func(t *rapid.T) c32Case {
 	return func(t *rapid.T) c32Case {
 		if rapid.IntRange(0, 99).Draw(t, "kind") < stressPct() {
 			sc := genScenario(t)
+			if rapid.IntRange(0, 99).Draw(t, "stalled") < stalledPct {
+				sc.Stalled = genStalled(t)
+			}
 			return c32Case{Scn: &sc}
 		}
 		p := pairs[rapid.IntRange(0, len(pairs)-1).Draw(t, "pair")]
@@ -66,8 +70,85 @@ func stallSignature(ws []waiterT) (sig string, culprit *waiterT) {
 	return "C32-stress-stall-lock-waiters-" + strings.Join(fs, "+"), nil
 }
 
-// nestedCandidates: the methods a listed nested-read-lock finding can name (every probed method).
-var nestedCandidates []string
+// stalledBase is the fixed scenario of the stalled-reader sweep: a little ordinary traffic on t/# next to the stalled
+// client, every trigger variant once per run.
+func stalledBase(variant string, k int) scenarioT {
+	sc := scenarioT{Seed: uint64(k), CloseAt: 100,
+		HK:      []hkT{{Kind: "sys"}, {Kind: "clients"}, {Kind: "inflight"}, {Kind: "wills"}},
+		Inline:  []inlineOpT{{Op: "pub", Topic: "t/1"}},
+		Stalled: &stalledT{Variant: variant, Ver: byte(4 + k%2), Qos: byte(k % 2), Limit: []int{64, 1, 1024, 4096}[k%4], Size: 300, Clean: k%2 == 0}}
+	for g := 0; g < 6; g++ {
+		script := []stepT{{Op: "connect", ID: fmt.Sprintf("f%d", g), Ver: byte(4 + g%2), Clean: true, Ack: "all"},
+			{Op: "sub", Filters: []filterT{{F: "t/#", Q: byte(g % 2)}}}}
+		for i := 0; i < 12; i++ {
+			script = append(script, stepT{Op: "pub", Topic: pubTopics[(g+i)%len(pubTopics)], Qos: byte(i % 2), Size: 10})
+		}
+		script = append(script, stepT{Op: "settle"}, stepT{Op: "disc"})
+		sc.Clients = append(sc.Clients, script)
+		sc.Roles = append(sc.Roles, "fan")
+	}
+	return sc
+}
+
+// nameStall names a stall of a stress run. With the 'stalled-reader' kind in the scenario the name is the variant plus
+// the place where the goroutine that the trigger set in motion waits for a lock (the handler that read the DISCONNECT
+// or the end of the stream, the handler of the connection taking the session over, Server.Close): that goroutine is
+// the one whose progress would have closed the stalled connection. Everything else goes by stallSignature.
+func nameStall(sc scenarioT, ws []waiterT) (sig string, culprit *waiterT) {
+	if sc.Stalled != nil {
+		marker := map[string]string{"disconnect": "Server.processDisconnect", "takeover": "Server.inheritClientSession", "server-close": "Server.closeListenerClients"}[sc.Stalled.Variant]
+		has := func(w waiterT, f string) bool {
+			for _, x := range w.Frames {
+				if x == f {
+					return true
+				}
+			}
+			return false
+		}
+		for i, w := range ws {
+			ok := marker != "" && has(w, marker)
+			if marker == "" { // half-close / reset: the stalled connection's own handler, after its read loop ended
+				ok = has(w, "Server.attachClient") && !has(w, "Client.Read") && !has(w, "Server.inheritClientSession")
+			}
+			if ok {
+				return "C32-stalled-reader-" + sc.Stalled.Variant + "-" + waitPlace(w), &ws[i]
+			}
+		}
+	}
+	return stallSignature(ws)
+}
+
+// waitPlace: the innermost repository function of the waiter and its first different caller.
+func waitPlace(w waiterT) string {
+	for _, f := range w.Frames[1:] {
+		if f != w.Frames[0] {
+			return w.Frames[0] + "<-" + f
+		}
+	}
+	return w.Frames[0]
+}
+
+// openSignatures lists the open findings of a property (the same file evid.New reads).
+func openSignatures(prop string) (out []string) {
+	path := os.Getenv("VERIF_KNOWN")
+	if path == "" {
+		path = "/verif/known_findings.json"
+	}
+	b, err := os.ReadFile(path)
+	if err != nil {
+		return nil
+	}
+	var fs []evid.Finding
+	if json.Unmarshal(b, &fs) != nil {
+		return nil
+	}
+	for _, f := range fs {
+		if f.Property == prop && f.Status == "open" {
+			out = append(out, f.Signature)
+		}
+	}
+	return
+}
 
 func scenarioKey(sc scenarioT) string {
 	b, _ := json.Marshal(sc)
@@ -98,13 +179,7 @@ func checkStress32(sc scenarioT, r *evid.Rec) []evid.Disc {
 		r.NotAsserted()
 		return nil
 	}
-	var listed []string
-	for _, m := range nestedCandidates {
-		if r.IsKnown(sigNested(m)) {
-			listed = append(listed, sigNested(m))
-		}
-	}
-	cr, err := runChild(sc, stallWindowC, childLimit, listed)
+	cr, err := runChild(sc, stallWindowC, childLimit, openSignatures("C32"))
 	if err != nil {
 		r.Inconclusive("stress child process could not be started: " + err.Error())
 		r.NotAsserted()
@@ -146,6 +221,16 @@ func checkStress32(sc scenarioT, r *evid.Rec) []evid.Disc {
 		}
 		ds = append(ds, evid.D("C32-stress-panic-"+fn, "a broker call panicked: %s", p))
 	}
+	if sc.Stalled != nil {
+		r.Label("stalled-reader:variant=" + sc.Stalled.Variant)
+		switch {
+		case res.Counters["stalled:write-blocked-before-trigger"] > 0:
+			r.Label("stalled-reader:broker-write-blocked-before-the-trigger")
+			r.NonTrivial(fmt.Sprintf("stalled|%s|v%d|q%d|limit%d|clean%v", sc.Stalled.Variant, sc.Stalled.Ver, sc.Stalled.Qos, sc.Stalled.Limit, sc.Stalled.Clean))
+		case res.StalledDone:
+			r.Label("stalled-reader:no-blocked-write-seen(trivial)")
+		}
+	}
 	switch {
 	case res.Finished:
 		r.Label("stress:finished")
@@ -158,7 +243,7 @@ func checkStress32(sc scenarioT, r *evid.Rec) []evid.Disc {
 	case res.Stall == "lock-waiters":
 		r.Label("stress:stalled-with-lock-waiters")
 		r.NonTrivial("stress|" + scenarioKey(sc))
-		sig, culprit := stallSignature(res.Waiters)
+		sig, culprit := nameStall(sc, res.Waiters)
 		var b strings.Builder
 		gs := parseDump(res.Dump)
 		shown := 0
@@ -222,10 +307,6 @@ func TestC32(t *testing.T) {
 	r.Assume("The statement's static clause (no code path re-acquires a read lock it holds) is replaced by the dynamic lock matrix: nested acquisition reachable only through unexported types is covered only as far as exported methods and the stress scenario reach it.")
 
 	pairs, unexported, unbuildable := matrixPairs()
-	nestedCandidates = nil
-	for _, p := range pairs {
-		nestedCandidates = append(nestedCandidates, p.String())
-	}
 	r.Set("lock_types_unexported(covered through exported methods only)", strings.Join(unexported, ","))
 	r.Set("matrix_pairs", len(pairs))
 	var np []string
@@ -273,6 +354,17 @@ func TestC32(t *testing.T) {
 			continue
 		}
 		evid.Direct(t, r, c32Case{Probe: &probeT{Type: p.Type, Method: p.Method, Tape: defaultTape}}, check)
+	}
+	if t.Failed() {
+		return
+	}
+	// sweep: the stalled-reader kind, every trigger variant once per run
+	for i, v := range stalledVariants {
+		if i%n != idx || t.Failed() {
+			continue
+		}
+		sc := stalledBase(v, i+int(evid.Seed()))
+		evid.Direct(t, r, c32Case{Scn: &sc}, check)
 	}
 	if t.Failed() {
 		return
